@@ -179,13 +179,19 @@ func staticValueFor(g reflect.Type) func() any {
 	return nil
 }
 
-// chunkValue splits a predecessor output into the chunks of its stream form: maps are delivered one key
-// per chunk (sorted keys), every other type as a single chunk.
-func chunkValue(v any) []any {
+// chunkValue splits a predecessor output into the chunks of its stream form: values of static map type are
+// delivered one key per chunk (sorted keys), every other type as a single chunk.
+func chunkValue(v any, staticType string) []any {
+	if staticType == "ANY" {
+		return []any{v} // chunks of interface type cannot be concatenated without a user-registered function
+	}
 	switch m := v.(type) {
 	case map[string]any:
 		if len(m) < 2 {
 			return []any{v}
+		}
+		if containsNil(reflect.ValueOf(v), 0) {
+			return []any{v} // concatenating map chunks that hold nil values is property C14's business
 		}
 		keys := make([]string, 0, len(m))
 		for k := range m {
@@ -213,4 +219,28 @@ func chunkValue(v any) []any {
 		return out
 	}
 	return []any{v}
+}
+
+// containsNil: an untyped nil somewhere inside a map value tree.
+func containsNil(v reflect.Value, d int) bool {
+	if d > maxDepth {
+		return false
+	}
+	switch v.Kind() {
+	case reflect.Invalid:
+		return true
+	case reflect.Interface:
+		if v.IsNil() {
+			return true
+		}
+		return containsNil(v.Elem(), d+1)
+	case reflect.Map:
+		it := v.MapRange()
+		for it.Next() {
+			if containsNil(it.Value(), d+1) {
+				return true
+			}
+		}
+	}
+	return false
 }
